@@ -25,14 +25,16 @@ def _patch():
     orig = Notifier.notify
 
     def notify(self):
-        for ref in list(self._callbacks_refs):
+        # which public classes own the live callbacks about to run (read off the registry; if a later version keeps its
+        # registry elsewhere nothing is logged and the traces are validated for their state only)
+        for ref in list(getattr(self, "_callbacks_refs", [])):
             if isinstance(ref, tuple):
                 inst = ref[0]()
                 if inst is None:
                     continue
                 names = [c.__name__ for c in type(inst).__mro__]
-                base = next((b for b in BASES if b in names), names[0])
-                _LOG.append(f"{base}.{ref[1]}")
+                _LOG.append(next((b for b in BASES if b in names), names[0]))
+        _LOG.append("__instrumented__" if hasattr(self, "_callbacks_refs") else "__blind__")
         return orig(self)
     Notifier.notify = notify
     _PATCHED = True
